@@ -23,10 +23,6 @@ fn compute_initial_gaps(
             let datum = datum_definitions
                 .get(datum_id)
                 .unwrap_or_else(|| panic!("datum #{}", datum_id));
-            // Ignore empty data
-            if datum.details().size() == 0 {
-                return None;
-            }
             if datum.details().offset() > last_offset {
                 let gap = Gap {
                     start: last_offset,
